@@ -74,9 +74,11 @@ class TS:
 class Chooser:
     """policy: 'fifo' | 'random' | 'pct'. Explicit preemptions {step: pick} override the policy; nudges {step: kind}."""
 
-    def __init__(self, policy="fifo", seed=0, preemptions=(), nudges=(), pct_depth=2, max_steps=6000):
+    def __init__(self, policy="fifo", seed=0, preemptions=(), nudges=(), pct_depth=2, max_steps=6000, drift=0.0):
         self.policy, self.seed = policy, seed
+        self.drift = drift  # probability per step that time flows to the next deadline although threads are runnable
         self.rng = _random.Random(seed)
+        self.drift_rng = _random.Random(seed * 7919 + 13)
         self.pre = {int(s): int(p) for s, p in preemptions}
         self.nudges = {int(s): k for s, k in nudges}
         self.resolved = []
@@ -109,7 +111,10 @@ class Chooser:
         return i
 
     def nudge(self, step):
-        return self.nudges.get(step)
+        k = self.nudges.get(step)
+        if k is None and self.drift and self.drift_rng.random() < self.drift:
+            k = "drift"  # computation takes time: sleeping threads may wake up while others are still runnable
+        return k
 
 
 class ReplayChooser:
@@ -577,6 +582,10 @@ class World:
             self.wall_offset += 3600.0
         elif kind == "wall-":
             self.wall_offset -= 3600.0
+        elif kind == "drift":
+            # computation takes (a little) time: only deadlines that are close are overtaken
+            if dl is not None and self.now < dl <= self.now + 2.5 * self.quantum:
+                self.now = dl + 1e-4
         elif dl is not None and dl > self.now:
             eps = 1e-4
             if kind == "before":
